@@ -319,6 +319,16 @@ impl Ideal {
         let (a0, a1) = if sweep_deg < 0.0 { (start_deg + sweep_deg, start_deg) } else { (start_deg, start_deg + sweep_deg) };
         Ideal { cx: tl.x as f64 + r, cy: tl.y as f64 + r, a0, a1, full: sweep_deg.abs() >= 360.0 }
     }
+    /// signed distances to the two radial LINES: at most `tol` px beyond each (both for < 180 deg, one for >= 180 deg)
+    fn within_lines(&self, p: Point, tol: f64) -> bool {
+        if self.full {
+            return true;
+        }
+        let (vx, vy) = (p.x as f64 - self.cx, p.y as f64 - self.cy);
+        let across = |deg: f64| -deg.to_radians().sin() * vx + deg.to_radians().cos() * vy;
+        let (right, left) = (across(self.a0) >= -tol, across(self.a1) <= tol);
+        if self.a1 - self.a0 < 180.0 { right && left } else { right || left }
+    }
     /// (inside the swept angle, distance to the nearer radial boundary ray)
     fn classify(&self, p: Point) -> (bool, f64) {
         let (vx, vy) = (p.x as f64 - self.cx, p.y as f64 - self.cy);
@@ -515,6 +525,14 @@ pub fn search(suite: &str, a: &[&str]) -> Option<String> {
                     if c != s {
                         return Some(format!("FAIL class=full_sector_not_circle tl={:?} d={} start={} sweep={}", tl, d, start, sweep));
                     }
+                    // the same through contains() over box+2 and through the filled styled sector
+                    let sec = Sector::new(tl, d, start.deg(), sweep.deg());
+                    let win = Rectangle::new(tl - Point::new(2, 2), Size::new_equal(d + 4));
+                    let sc: Vec<Point> = win.points().filter(|p| sec.contains(*p)).collect();
+                    let sf: Vec<Point> = sec.into_styled(PrimitiveStyle::with_fill(Rgb565::new(1, 1, 1))).pixels().map(|Pixel(p, _)| p).collect();
+                    if sc != c || sf != c {
+                        return Some(format!("FAIL class=full_sector_not_circle (contains {} / filled {} vs circle {}) tl={:?} d={} start={} sweep={}", sc.len(), sf.len(), c.len(), tl, d, start, sweep));
+                    }
                     let ring: Vec<Point> = Circle::new(tl, d).points().filter(|p| !Circle::new(tl, d).offset(-1).contains(*p)).collect();
                     let ar: Vec<Point> = Arc::new(tl, d, start.deg(), sweep.deg()).points().collect();
                     if ring != ar {
@@ -532,39 +550,101 @@ pub fn search(suite: &str, a: &[&str]) -> Option<String> {
             let ideal = Ideal::new(tl, d, ang_deg64(a[3]), ang_deg64(a[4]));
             let circle = Circle::new(tl, d);
             let inner = circle.offset(-1);
-            let sec: std::collections::BTreeSet<(i32, i32)> = Sector::new(tl, d, s, w).points().map(|p| (p.y, p.x)).collect();
-            let arc: std::collections::BTreeSet<(i32, i32)> = Arc::new(tl, d, s, w).points().map(|p| (p.y, p.x)).collect();
+            type Set = std::collections::BTreeSet<(i32, i32)>;
+            let sector = Sector::new(tl, d, s, w);
+            let arc_p = Arc::new(tl, d, s, w);
+            // every way the shape can be observed; the clauses are evaluated on each of them
+            let sec_points: Set = sector.points().map(|p| (p.y, p.x)).collect();
+            let m = 2i32;
+            let win = Rectangle::new(tl - Point::new(m, m), Size::new_equal(d + 2 * m as u32));
+            let sec_contains: Set = win.points().filter(|p| sector.contains(*p)).map(|p| (p.y, p.x)).collect();
+            let fill = sector.into_styled(PrimitiveStyle::with_fill(Rgb565::new(1, 2, 3)));
+            let sec_fill: Set = fill.pixels().map(|Pixel(p, _)| (p.y, p.x)).collect();
+            let big = Rectangle::new(Point::new(-(1 << 30), -(1 << 30)), Size::new((1 << 31) - 2, (1 << 31) - 2));
+            let mut t = IterTarget::<Rgb565>::new(big);
+            fill.draw(&mut t).unwrap();
+            let sec_draw: Set = t.map.keys().cloned().collect();
+            let arc_points: Set = arc_p.points().map(|p| (p.y, p.x)).collect();
+            let thin = arc_p.into_styled(PrimitiveStyle::with_stroke(Rgb565::new(3, 2, 1), 1));
+            let arc_pixels: Set = thin.pixels().map(|Pixel(p, _)| (p.y, p.x)).collect();
+            let mut t2 = IterTarget::<Rgb565>::new(big);
+            thin.draw(&mut t2).unwrap();
+            let arc_draw: Set = t2.map.keys().cloned().collect();
+            if sec_contains != sec_points {
+                return Some(format!("FAIL class=contains_ne_points contains() over box+2 accepts {} points, points() yields {}", sec_contains.len(), sec_points.len()));
+            }
+            if sec_draw != sec_fill || arc_draw != arc_pixels {
+                return Some("FAIL class=draw_ne_pixels".into());
+            }
+            if arc_pixels != arc_points {
+                return Some(format!("FAIL class=arc_width1_ne_points styled arc (stroke 1) {} pixels, points() {}", arc_pixels.len(), arc_points.len()));
+            }
+            let (op, l, r) = plane_sector_parts(s, w);
+            let degenerate = op == 0 && r == l;
             let mut n = 0;
-            for &(y, x) in sec.iter().chain(arc.iter()) {
-                let p = Point::new(x, y);
-                if !circle.contains(p) {
-                    return Some(format!("FAIL class=point_outside_circle {:?}", p));
+            // soundness: in the circle, within 1.5 px of the swept angle
+            let obs: [(&str, &Set, bool); 5] = [
+                ("Sector::points", &sec_points, false), ("Sector::contains", &sec_contains, false), ("filled sector pixels", &sec_fill, true),
+                ("Arc::points", &arc_points, false), ("arc stroke-1 pixels", &arc_pixels, false),
+            ];
+            for (name, set, is_fill) in obs.iter() {
+                for &(y, x) in set.iter() {
+                    let p = Point::new(x, y);
+                    if !circle.contains(p) {
+                        return Some(format!("FAIL class=point_outside_circle {}: {:?}", name, p));
+                    }
+                    let (inside, dist) = ideal.classify(p);
+                    if !inside && dist > 1.5 {
+                        // the FILL of a styled sector keeps a half-pixel margin on both radial lines (sector/styled.rs:56-59):
+                        // for it the clause is read on the two lines (0.8 px), which for narrow sweeps reaches behind the centre
+                        if *is_fill && ideal.within_lines(p, 0.8) {
+                            continue;
+                        }
+                        // |sweep| below the resolution of the 1024-scaled normals: both half planes share one line
+                        // (class predicate K18_tiny_sweep_opposite_side of Proofs/Sectormodel.v, narrowed to equal normals)
+                        let class = if degenerate { "tiny_sweep_opposite_side" } else { "point_outside_sweep" };
+                        return Some(format!("FAIL class={} {}: {:?} is {:.3} px outside the swept angle", class, name, p, dist));
+                    }
+                    n += 1;
                 }
-                let (inside, dist) = ideal.classify(p);
-                if !inside && dist > 1.5 {
-                    // |sweep| below the resolution of the 1024-scaled normals: both half planes share one line
-                    // (the class predicate K18_tiny_sweep_opposite_side of Proofs/Sectormodel.v, evaluated on the hook's values)
-                    let (op, l, r) = plane_sector_parts(s, w);
-                    // narrowed to its real instances: both rounded normals equal
-                    let degenerate = op == 0 && r == l;
-                    let class = if degenerate { "tiny_sweep_opposite_side" } else { "point_outside_sweep" };
-                    return Some(format!("FAIL class={} {:?} is {:.3} px outside the swept angle", class, p, dist));
-                }
-                n += 1;
             }
-            for &(y, x) in arc.iter() {
-                if inner.contains(Point::new(x, y)) {
-                    return Some(format!("FAIL class=arc_point_not_on_ring ({},{})", x, y));
+            for set in [&arc_points, &arc_pixels] {
+                for &(y, x) in set.iter() {
+                    if inner.contains(Point::new(x, y)) {
+                        return Some(format!("FAIL class=arc_point_not_on_ring ({},{})", x, y));
+                    }
                 }
             }
+            // completeness: every circle (ring) point more than 1.5 px inside the sweep is present in every observation
             for p in circle.points() {
                 let (inside, dist) = ideal.classify(p);
                 if inside && dist > 1.5 {
-                    if !sec.contains(&(p.y, p.x)) {
-                        return Some(format!("FAIL class=inner_point_missing sector lacks {:?} ({:.3} px inside)", p, dist));
+                    for (name, set, _) in obs.iter().take(3) {
+                        if !set.contains(&(p.y, p.x)) {
+                            return Some(format!("FAIL class=inner_point_missing {} lacks {:?} ({:.3} px inside)", name, p, dist));
+                        }
                     }
-                    if !inner.contains(p) && !arc.contains(&(p.y, p.x)) {
-                        return Some(format!("FAIL class=inner_point_missing arc lacks {:?} ({:.3} px inside)", p, dist));
+                    if !inner.contains(p) {
+                        for (name, set, _) in obs.iter().skip(3) {
+                            if !set.contains(&(p.y, p.x)) {
+                                return Some(format!("FAIL class=inner_point_missing {} lacks {:?} ({:.3} px inside)", name, p, dist));
+                            }
+                        }
+                    }
+                }
+            }
+            // a sweep of 360 degrees or more: every observation is the circle / the ring
+            if ang_deg64(a[4]).abs() >= 360.0 {
+                let cset: Set = circle.points().map(|p| (p.y, p.x)).collect();
+                let ring: Set = circle.points().filter(|p| !inner.contains(*p)).map(|p| (p.y, p.x)).collect();
+                for (name, set, _) in obs.iter().take(3) {
+                    if **set != cset {
+                        return Some(format!("FAIL class=full_sector_not_circle {}: {} points, circle has {}", name, set.len(), cset.len()));
+                    }
+                }
+                for (name, set, _) in obs.iter().skip(3) {
+                    if **set != ring {
+                        return Some(format!("FAIL class=full_arc_not_ring {}: {} points, ring has {}", name, set.len(), ring.len()));
                     }
                 }
             }
